@@ -343,10 +343,32 @@ struct GraphObs {
     gen_lam_f: Option<Option<f64>>,
 }
 
-fn run_graph(rows: &[Vec<(usize, i64)>], valid_csr: bool, p: &[usize], vw: &[i64]) -> GraphObs {
+/// mode 0: valid sparse matrix through the checked constructor `CsMat::new`;
+/// mode 1: adjacency list (generic trait only);
+/// mode 2: rows in any order through `CsMatView::new_unchecked`, the constructor
+///         coupe's C API uses (ffi/src/lib.rs) -- outside the sparse-matrix contract.
+fn run_graph(rows: &[Vec<(usize, i64)>], mode: u64, p: &[usize], vw: &[i64]) -> GraphObs {
     let n = rows.len();
     let vwf: Vec<f64> = vw.iter().map(|x| *x as f64).collect();
-    if valid_csr {
+    if mode == 2 {
+        let (indptr, indices, data) = csr_of(rows);
+        let dataf: Vec<f64> = data.iter().map(|x| *x as f64).collect();
+        let csr = coupe::sprs::CompressedStorage::CSR;
+        let v: CsMatView<i64> =
+            unsafe { CsMatView::new_unchecked(csr, (n, n), &indptr[..], &indices[..], &data[..]) };
+        let vf: CsMatView<f64> =
+            unsafe { CsMatView::new_unchecked(csr, (n, n), &indptr[..], &indices[..], &dataf[..]) };
+        GraphObs {
+            csr_cut: Some(obs(|| v.edge_cut(p))),
+            gen_cut: Some(obs(|| Generic(v).edge_cut(p))),
+            csr_lam: Some(obs(|| Topology::<i64>::lambda_cut(&v, p, vw.par_iter().cloned()))),
+            gen_lam: Some(obs(|| Topology::<i64>::lambda_cut(&Generic(v), p, vw.par_iter().cloned()))),
+            csr_cut_f: Some(obs(|| vf.edge_cut(p))),
+            gen_cut_f: Some(obs(|| Generic(vf).edge_cut(p))),
+            csr_lam_f: Some(obs(|| Topology::<f64>::lambda_cut(&vf, p, vwf.par_iter().cloned()))),
+            gen_lam_f: Some(obs(|| Topology::<f64>::lambda_cut(&Generic(vf), p, vwf.par_iter().cloned()))),
+        }
+    } else if mode == 0 {
         let (indptr, indices, data) = csr_of(rows);
         let dataf: Vec<f64> = data.iter().map(|x| *x as f64).collect();
         let m: CsMat<i64> = CsMat::new((n, n), indptr.clone(), indices.clone(), data);
@@ -516,9 +538,15 @@ fn main() {
         let kind = r.below(10);
         if kind < 5 {
             // ---------------------------------------------- graph case
-            let valid = kind < 4;
+            let mode: u64 = if kind < 4 {
+                0
+            } else if r.chance(1, 2) {
+                1
+            } else {
+                2
+            };
             let (mut fam, mut rows) = gen_csr(&mut r, big);
-            if !valid {
+            if mode == 1 {
                 // adjacency list for the generic trait only: shuffled rows, duplicated entries
                 fam = format!("adjlist_{}", fam);
                 for row in rows.iter_mut() {
@@ -526,6 +554,13 @@ fn main() {
                         let e = *r.pick(row);
                         row.push((e.0, r.range(-3, 7)));
                     }
+                    shuffle(&mut r, row);
+                }
+            }
+            if mode == 2 {
+                // separate stream OUTSIDE the sparse-matrix contract: rows in any order
+                fam = format!("unsorted_unchecked_{}", fam);
+                for row in rows.iter_mut() {
                     shuffle(&mut r, row);
                 }
             }
@@ -556,7 +591,7 @@ fn main() {
             }
             let (rows2, p2, vw2) = (rows.clone(), p.clone(), vw.clone());
             let res = guarded(threads, Duration::from_secs(30), move || {
-                run_graph(&rows2, valid, &p2, &vw2)
+                run_graph(&rows2, mode, &p2, &vw2)
             });
             let (coq_o, json_o) = match &res {
                 Guarded::Done(o) => (
@@ -606,10 +641,11 @@ fn main() {
                 coq_o
             );
             let json = format!(
-                "{{\"kind\":\"graph\",\"valid_sparse_matrix\":{},\"threads\":{},\"rows\":{},\"partition\":{},\"vertex_weights\":{},\"partition_family\":\"{}\",\"contract\":\"{}\",\"impl\":{}}}",
-                valid, threads, json_rows(&rows), json_usizes(&p), json_i64s(&vw), pfam, contract, json_o
+                "{{\"kind\":\"graph\",\"constructor\":\"{}\",\"threads\":{},\"rows\":{},\"partition\":{},\"vertex_weights\":{},\"partition_family\":\"{}\",\"contract\":\"{}\",\"impl\":{}}}",
+                ["CsMat::new", "adjacency list (generic trait only)", "CsMatView::new_unchecked (rows in any order)"][mode as usize],
+                threads, json_rows(&rows), json_usizes(&p), json_i64s(&vw), pfam, contract, json_o
             );
-            let key = format!("g|{}|{:?}|{:?}|{:?}", valid, rows, p, vw);
+            let key = format!("g|{}|{:?}|{:?}|{:?}", mode, rows, p, vw);
             let distinct_parts = {
                 let mut q = p.clone();
                 q.sort();
